@@ -6,6 +6,7 @@ CONSTANTS
   NameSets = {1, 2}
   ShapeIdx = {1, 2, 3, 4}
   UsageIdx = {1, 2, 3, 4, 5}
+  CookieLens = {0, 1, 32, 255}
   Sample = 10
   Mutant = "none"
 INIT Init
